@@ -390,16 +390,33 @@ func (e *crashEngine) recover(img image) (res string) {
 				st2.Put(pk2, []byte{0xd0, byte(i)})
 				st2.Flush()
 			}
-			for round := 0; round < 8; round++ {
-				if _, err := mp.VerifGC(context.Background(), 50, 0); err != nil {
-					derr = "pgc-err"
+			rounds := func(st *store.Store, mp *mhprimary.MultihashPrimary, n int) {
+				for round := 0; round < n; round++ {
+					if _, err := mp.VerifGC(context.Background(), 50, 0); err != nil {
+						derr = "pgc-err"
+					}
+					st.Flush()
+					if _, _, err := st.Index().VerifGC(context.Background(), true); err != nil && derr == "" {
+						derr = "igc-err"
+					}
 				}
-				st2.Flush()
-				if _, _, err := st2.Index().VerifGC(context.Background(), true); err != nil && derr == "" {
-					derr = "igc-err"
-				}
+				st.Flush()
 			}
-			st2.Flush()
+			rounds(st2, mp, 4)
+			// The collector measures a file's free share when it visits it, BEFORE it merges the spans it has just freed (the
+			// merged span is larger by the 4-byte prefixes it swallows), and a visited file is revisited only when the freelist
+			// names it again: a file can therefore come to rest just above the threshold by the file's own bytes although it was
+			// just below it when visited. A restart clears the visited set; the verdict is taken after the restarted collector has
+			// seen the merged files.
+			st2.Close()
+			st3, err3 := store.OpenStore(context.Background(), kind, dp, ip, imm, opts...)
+			if err3 != nil {
+				return fmt.Sprintf("%s open=ok r0=%s post=%s r1=%s r2=%s drain=na!reopen-err", head, r0, post, r1, r2)
+			}
+			st2 = st3
+			st2.VerifAttachGC()
+			mp, _ = st2.Primary().(*mhprimary.MultihashPrimary)
+			rounds(st2, mp, 5)
 			var parts []string
 			ents, _ := os.ReadDir(dir)
 			for _, en := range ents {
